@@ -127,6 +127,21 @@ CHECKS = {
   note="Trusted: the harness PostgreSQL lexer and the canned result sets of the recording driver. MySQL quoting rules for existing-sql are not modelled. Hooks: psql/export_verif.go, existing-sql/export_verif.go.",
   technique="property-based testing: metamorphic token-structure relation over recorded SQL, exhaustive + rapid hostile strings"),
 }
+# what the seeding rounds added (DESIGN.md §8.4)
+ADDED = {
+ "C01": " Graphs also arrive through overwrites, deletes and bulk streams (the stored graph must be the final one); distinct() is judged exactly whenever its key groups hold identical travelers, so traversals with several distinct() steps are compared by equality.",
+ "C02": " Half of the Badger graphs arrive through overwrites, deletes and bulk streams, so stale index entries show up as planned/literal differences.",
+ "C06": " Plus every (string-taking statement, pool string) pair after four prefixes, systematically; thorough: native fuzzing of wire bytes (FuzzQueryBytes).",
+ "C07": " Shapes with several aggregations per step; histograms over values whose magnitude swallows the interval must end.",
+ "C09": " A fourth field whose name extends another byte-wise; the index as kvgraph drives it (AddVertexIndex/AddVertex/BulkAdd/DelVertex histories read back through a fresh KVIndex handle).",
+ "C11": " Rows beyond 64 KB; vertex and edge ids that coincide; an enumeration of marking patterns x resumed parts that read marks stored by id only x restart.",
+ "C12": " Schedule dimensions: GOMAXPROCS, repetitions, consumer pauses, capacity of the channels between steps (1/2/7/50/5000), backend latency (120/250 ms per lookup), one generation larger than every bounded buffer of the cycle; counters created by increment() itself.",
+ "C13": " ChannelMux with 1-4, 8, 49, 50, 51 and 64 pipelines.",
+ "C17": " Sessions call every RPC of the Query/Edit/Job services and run whole resource life cycles (private graph with schema, job, index); contention bursts (sessions writing and deleting hundreds of vertices of one label) and structural contention (a vertex deleted while others delete or move its edges).",
+ "C20": " Thorough: native fuzzing over (entry point, client string) with the same oracle (FuzzHostile).",
+}
+for _k, _v in ADDED.items():
+    CHECKS[_k]["text"] += _v
 NOT_YET = "check not built yet in this session (planned in DESIGN.md §3); not claimed"
 
 def main():
